@@ -50,6 +50,10 @@ func (check) Plan(tier string, seed int64) []harness.Batch {
 		s, _ = json.Marshal(spec{Kind: "colours", Part: p, Of: 16})
 		bs = append(bs, harness.Batch{Name: fmt.Sprintf("colours-%d", p), Seed: seed*103 + int64(p), Spec: s, TimeoutS: 3000, CaseTimeoutS: 300})
 	}
+	for p := 0; p < 4; p++ {
+		s, _ := json.Marshal(spec{Kind: "smallqueue", Part: p, Of: 4})
+		bs = append(bs, harness.Batch{Name: fmt.Sprintf("smallqueue-%d", p), Seed: seed*107 + int64(p), Spec: s, TimeoutS: 3000, CaseTimeoutS: 150})
+	}
 	s, _ := json.Marshal(spec{Kind: "env"})
 	bs = append(bs, harness.Batch{Name: "env-colorterm", Seed: seed, Spec: s, TimeoutS: 600, Env: []string{"COLORTERM=truecolor"}})
 	return bs
@@ -273,6 +277,64 @@ func runCaps(w *harness.W, cc capCase) {
 	}
 }
 
+// runSmallQueue: Options.EventQueueSize 1. The replies to the first block of
+// start-up queries pile up behind the one-slot queue while New is still
+// writing the second block (nobody drains until the last query is out), so
+// every capability event meets a full queue. What the replies established must
+// still be what the accessors report (C07-q: a capability event posted without
+// blocking is dropped). Explicit-width text is left out of the masks: its probe
+// waits 50 ms for a cursor report that the stalled input goroutine cannot
+// deliver, which is the queue size the application chose and not judged here.
+func runSmallQueue(w *harness.W, cc capCase) {
+	cj, _ := json.Marshal(cc)
+	w.Begin(string(cj))
+	defer w.End()
+	caps := refterm.CapsFromMask(cc.Mask)
+	sess, err := vxh.Start(40, 8, caps, vaxis.Options{EventQueueSize: 1}, func(t *refterm.Terminal, c *memcon.Console) {
+		if cc.RPM4 {
+			t.UnsupportedModeReport = 4
+		}
+	})
+	if err != nil {
+		w.Violation("new-failed", err.Error(), cc, err.Error(), "nil")
+		return
+	}
+	if _, ok := sess.Sync(); !ok {
+		w.Inconclusive("startup-sync-timeout")
+		return
+	}
+	vx := sess.Vx
+	w.Case(fmt.Sprintf("smallqueue|%d|%v", cc.Mask, cc.RPM4))
+	w.Count("sessions_event_queue_of_one", 1)
+	for _, p := range []struct {
+		name      string
+		got, want bool
+	}{
+		{"rgb", vx.CanRGB(), caps.RGB},
+		{"kittygraphics", vx.CanKittyGraphics(), caps.KittyGfx},
+		{"sixel", vx.CanSixel(), caps.Sixel},
+		{"osc4", vx.CanReportColor(), caps.OSC4},
+		{"osc10", vx.CanReportForegroundColor(), caps.OSC1011},
+		{"osc11", vx.CanReportBackgroundColor(), caps.OSC1011},
+		{"osc176", vx.CanSetAppID(), caps.OSC176},
+		{"unicode", vx.CanUnicodeCore(), caps.Unicode},
+	} {
+		if p.got != p.want {
+			w.Violation("accessor:"+p.name+":event-queue-of-one", fmt.Sprintf("with Options.EventQueueSize 1 the Can* accessor for %s reports %v, the terminal's replies established %v", p.name, p.got, p.want), cc, fmt.Sprint(p.got), fmt.Sprint(p.want))
+		}
+	}
+	if caps.XTVersion != "" && vx.TerminalID() != caps.XTVersion {
+		w.Violation("accessor:terminalid:event-queue-of-one", "TerminalID differs from the XTVERSION reply", cc, vx.TerminalID(), caps.XTVersion)
+	}
+	// a direct colour is written as one only if RGB was established
+	vx.Window().SetCell(0, 0, vaxis.Cell{Character: vaxis.Character{Grapheme: "x", Width: 1}, Style: vaxis.Style{Foreground: vaxis.RGBColor(1, 2, 3)}})
+	vx.Render()
+	sess.Close()
+	if cc.Mask&0x1f == 0x1f {
+		w.Sample(cc)
+	}
+}
+
 func seqKind(s string) string {
 	if len(s) > 12 {
 		s = s[:12]
@@ -399,6 +461,19 @@ func (c check) Run(w *harness.W, b harness.Batch) {
 		}
 		for i, m := range masks {
 			runCaps(w, capCase{Mask: m, Names: names(m), Kitty: i%5 == 4, RPM4: i%3 == 1, SixelVia: []string{"", "da1", "xtsmgraphics", ""}[(i/2)%4], EarlyCPR: i%4 == 2})
+		}
+	case "smallqueue":
+		n := 12
+		if w.Tier == "thorough" {
+			n = 200
+		}
+		for i := 0; i < n; i++ {
+			m := uint32(r.Int63()) & 0x1ffff
+			if i%2 == 0 {
+				m |= 1<<9 | 1<<0 // rgb (XTGETTCAP, asked late) behind the synchronized-output report
+			}
+			m &^= 1 << 8
+			runSmallQueue(w, capCase{Mask: m, Names: names(m), RPM4: i%3 == 1})
 		}
 	case "colours":
 		runColours(w, s, r, w.Tier)
